@@ -268,7 +268,7 @@ class Gen:
             if present:
                 nm = ["Q", "prov", PROV, a] if rng.random() < 0.8 else ["S", "prov:" + a]
                 attrs.append([nm, self.formal_value(c, a)])
-        if rng.random() < 0.08 and fa:
+        if rng.random() < 0.08 and fa and kind != "Membership":
             # malformed: wrong kind of value for a formal attribute
             attrs.append([["Q", "prov", PROV, rng.choice(fa)], rng.choice([["int", "5"], ["bool", "true"], "none"])])
         attrs += self.other_attrs(c)
@@ -327,7 +327,9 @@ class Gen:
                     v = ["str", next(iter(cur)).isoformat()]
             else:
                 v = self.formal_value(c, a)
-            attrs.append([["Q", "prov", PROV, a], v])
+            # prov:collection given as a QualifiedName object switches the single-value
+            # guard off for the whole call (known finding C05-F1): spelled as a string here
+            attrs.append([["S", "prov:" + a] if a == "collection" else ["Q", "prov", PROV, a], v])
         self.emit(["AddAttrs", r, attrs])
 
     def op_set_time(self):
